@@ -46,6 +46,9 @@ Wraps(t) ==
   \cup { St(<<t>>) }
   \cup { St(<<s, t>>) : s \in Sibs } \cup { St(<<t, s>>) : s \in Sibs }
   \cup { St(<<s, t, s2>>) : s \in Sibs, s2 \in Sibs2 }
+  \* four fields: a sub-byte field, t, a composite (implicitly padded to a byte), and a trailing sub-byte field that makes
+  \* the position of everything before it visible in the set
+  \cup { St(<<s, t, Comp, Bool>>) : s \in {Bool, U(12, "s")} }
   \cup (IF NonVoid(t)
         THEN { Un(<<t, s>>) : s \in { x \in Sibs : NonVoid(x) } } \cup { Un(<<s, t>>) : s \in { x \in Sibs : NonVoid(x) } }
              \cup { Un(<<s, t, s2>>) : s \in { x \in Sibs : NonVoid(x) }, s2 \in Sibs2 }
